@@ -23,7 +23,7 @@ LEVEL_NOTE = 'Trusted: model.premerge/merge (calibrated on 9 append/extend/prev 
 RULE = ('seeded base + operator stages generated against the model state; non-trivial = at least one operator acts on an existing target; distinct = hash of texts')
 ASSUMPTIONS = ['operators are applied in document order against the accumulated tree, then the stage is merged']
 TIERS = {'quick': {'cases': 3000, 'budget': 60}, 'thorough': {'cases': 100000, 'budget': 900}}
-POOL = ['a', 'b', 'c', 'd', '_u', 'k1', 'exp-1', 'a.b', 'x y']        # incl. keys that are not identifier-like
+POOL = ['a', 'b', 'c', 'd', '_u', 'k1', 'exp-1', 'a.b', 'x y', 'extend']        # incl. keys that are not identifier-like, and one named like a list method
 
 
 def init(tier):
